@@ -232,9 +232,10 @@ Band(m, fn) == ~Due(m, fn) /\ ~MustWait(m, fn) /\ ~MustStale(m, fn)
 \* `st` = set of <<t, i>>: queue entries in the undecided band that are treated as passed
 IsStale(t, i, fn, st) == MustStale(trx[t].q[i], fn) \/ (Band(trx[t].q[i], fn) /\ <<t, i>> \in st)
 Idx(t) == 1..Len(trx[t].q)
-Pick(t, P(_)) == LET q == trx[t].q IN
-                 [k \in 1..Cardinality({i \in Idx(t) : P(i)}) |->
-                    q[CHOOSE i \in Idx(t) : P(i) /\ Cardinality({j \in Idx(t) : j < i /\ P(j)}) = k - 1]]
+\* the queue entries whose index satisfies P, in queue order
+Pick(t, P(_)) == LET q == trx[t].q
+                     idx == SelectSeq([i \in 1..Len(q) |-> i], P)
+                 IN [k \in 1..Len(idx) |-> q[idx[k]]]
 DueSeq(t, fn) == Pick(t, LAMBDA i : Due(trx[t].q[i], fn))
 StaleSeq(t, fn, st) == Pick(t, LAMBDA i : IsStale(t, i, fn, st))
 WaitSeq(t, fn, st) == Pick(t, LAMBDA i : ~Due(trx[t].q[i], fn) /\ ~IsStale(t, i, fn, st))
